@@ -157,6 +157,8 @@ class LibsModel:
             return AV(ty='hash', deps=d)
         if qual == 'pathlib.Path':
             return AV(ty='Path', deps=d, truthy=True, of=args[0] if args else None)
+        if qual in ('pickle.Pickler', 'pickle.Unpickler'):
+            return AV(ty='pickler', kind=qual.split('.')[-1], file=args[0] if args else kwargs.get('file'), deps=d)
         if qual == 'pickle.load':
             interp.emit('pickle_load', node, file=args[0] if args else None)
             return AV(ty='unpickled', deps=d, prov=frozenset({'pickle'}))
@@ -730,6 +732,14 @@ class LibsModel:
             return AV(deps=d, parsed=True)
         if ty == 'weakref':
             return recv.of if recv.of is not None else TOP
+        if ty == 'pickler':
+            if recv.kind == 'Pickler' and name == 'dump':
+                interp.emit('pickle_dump', node, obj=args[0] if args else None, file=recv.file)
+                return const(None)
+            if recv.kind == 'Unpickler' and name == 'load':
+                interp.emit('pickle_load', node, file=recv.file)
+                return AV(ty='unpickled', deps=d, prov=frozenset({'pickle'}))
+            return AV(deps=d)
         if ty == 'tuple':
             if name == 'index':
                 return AV(ty='int', deps=d)
